@@ -101,6 +101,15 @@ harness(void) {
 
   ldb_bloom_init(&bloom, VP_BPK);
   VP_ASSERT(bloom.k == vp_ref_k(VP_BPK), "probe count k == floor(bits_per_key * 0.69) clamped to [1,30]");
+#ifdef VP_KOVR
+  /* a policy "created using different parameters": few probes with a large
+     bits_per_key, so that a filter longer than 64 bits (modulus not a power
+     of two) stays cheap to check */
+  bloom.k = VP_KOVR;
+#define VP_EXPK VP_KOVR
+#else
+#define VP_EXPK vp_ref_k(VP_BPK)
+#endif
 
   for (i = 0; i < VP_N; i++) {
     kb[i] = vp_input(vp_klen[i]);
@@ -122,7 +131,7 @@ harness(void) {
   VP_ASSERT(dst.size == VP_PREFIX + bytes + 1, "filter length == max(64, n*bits_per_key) bits rounded up + 1 byte for k");
   for (i = 0; i < VP_PREFIX; i++)
     VP_ASSERT(dst.data[i] == prefix[i], "build leaves the initial contents of dst alone");
-  VP_ASSERT(dst.data[dst.size - 1] == vp_ref_k(VP_BPK), "last filter byte == k");
+  VP_ASSERT(dst.data[dst.size - 1] == VP_EXPK, "last filter byte == k");
 
   ldb_slice_set(&filter, dst.data + VP_PREFIX, dst.size - VP_PREFIX);
 
